@@ -225,7 +225,24 @@ for i, fn in enumerate([f1, f2, f3, f4, f5, f6, f7, f8, f9, f10, f11, f12, f13, 
     if len(sys.argv) > 1 and f"F{i}" not in sys.argv[1:]:
         continue
     t(f"F{i}", fn)
-for name, fn in (("F36", f36), ("F37", f37)):
+def f38():
+    """C11: projection of a hat function onto the Bezier space of degree 4 (degrees differ by 3): residual not orthogonal before 8f7c956"""
+    from compmec.nurbs.heavy import IntegratorArray, NodeSample
+
+    C = Curve([F(0), F(0), F(1, 2), F(1), F(1)], [F(0), F(1), F(0)])
+    D = Curve([F(0)] * 5 + [F(1)] * 5)
+    D.fit_curve(C)
+    nodes, w = NodeSample.closed_linspace(11), IntegratorArray.closed_newton_cotes(11)
+    B0 = Curve([F(0)] * 5 + [F(1)] * 5, [F(1), F(0), F(0), F(0), F(0)])
+    tot = F(0)
+    for a, b in ((F(0), F(1, 2)), (F(1, 2), F(1))):
+        for t_, wt in zip(nodes, w):
+            u = (1 - t_) * a + t_ * b
+            tot += (b - a) * wt * (C(u) - D(u)) * B0(u)
+    return True if tot == 0 else f"<C - D, B_0> = {tot}"
+
+
+for name, fn in (("F36", f36), ("F37", f37), ("F38", f38)):
     if len(sys.argv) > 1 and name not in sys.argv[1:]:
         continue
     t(name, fn)
